@@ -116,3 +116,66 @@ def base_of(path):
 def member_sep(path):
     i = max(path.rfind('->'), path.rfind('.'))
     return path[i:i + 2] if path[i] == '-' else '.'
+
+
+def alpha_map(f):
+    """actual name -> canonical name for the parameters (by position: $0, $1 ...) and the loop induction variables ($i, $j ... in order of
+    first appearance as a for-init or as the variable incremented in a loop): lets a rule written with roles instead of names survive renames"""
+    import re as _re
+    m = {}
+    for k, p_ in enumerate(f.params):
+        if p_.get('n'):
+            m[p_['n']] = '$%d' % k
+    ivs = []
+    for x in f.walk():
+        if x['k'] == 'ForStmt':
+            for d in f.walk(x):
+                if d['k'] == 'DeclStmt':
+                    for dd in d.get('decls') or []:
+                        if dd['n'] not in m and dd['n'] not in ivs:
+                            ivs.append(dd['n'])
+                    break
+            inc = x.get('inc')
+            if inc is not None:
+                for y in f.walk(f.N[inc]):
+                    if y['k'] == 'DeclRefExpr' and y.get('n') not in m and y['n'] not in ivs:
+                        ivs.append(y['n'])
+    for k, v in enumerate(ivs):
+        m[v] = '$' + 'ijklmn'[k] if k < 6 else '$v%d' % k
+    return m
+
+
+def alpha_str(s, m):
+    """rename identifiers of string s through map m (whole identifiers only, not member names after . or ->)"""
+    import re as _re
+    if not m:
+        return s
+    pat = _re.compile(r'(?<![\w>.$])(' + '|'.join(_re.escape(k) for k in sorted(m, key=len, reverse=True)) + r')(?![\w])')
+    return pat.sub(lambda mo: m[mo.group(1)], s)
+
+
+def branch_facts(f, node):
+    """[(condition string without blanks, polarity)] of the two-way branches that must have gone a certain way for `node` to run: walks the CFG backwards
+    from node's block over single-predecessor edges (nested ifs, else-if chains, and code after `if (c) { ... return / continue ; }`)"""
+    cfg = f.cfg
+    pt = cfg.point(node)
+    out = []
+    if pt is None:
+        return out
+    b = pt[0]
+    seen = set()
+    while b not in seen:
+        seen.add(b)
+        preds = cfg.preds.get(b, [])
+        if len(preds) != 1:
+            break
+        pb = preds[0]
+        blk = cfg.blocks[pb]
+        if 'cond' in blk and len(blk['succs']) == 2 and blk['succs'][0] != blk['succs'][1] and blk.get('tk') != 'SwitchStmt':
+            cn = f.N[blk['cond']]
+            # for `a && b` / `a || b` the block decides on its last element
+            if f.unwrap(cn).get('op') in ('&&', '||') and blk['elems']:
+                cn = f.N[blk['elems'][-1]]
+            out.append((f.s(cn).replace(' ', ''), blk['succs'][0] == b))
+        b = pb
+    return out
